@@ -318,13 +318,21 @@ def _mp_tile_worker(queue, done_event, pio, _kwargs):
     tile_parity_sign = pio.get_default_vertical_parity_sign()
 
     while True:
+        # Sample the shutdown flag *before* the blocking receive. The flag is only
+        # raised once every item has been flushed to the queue, so if it was up
+        # already and the receive still times out, the queue is truly drained.
+        # Testing it after the timeout instead would race with a producer that
+        # enqueues its last items and raises the flag in between, and those
+        # items would never be processed.
+        finishing = done_event.is_set()
+
         try:
             # un-pickling WCS objects always triggers warnings right now
             with warnings.catch_warnings():
                 warnings.simplefilter("ignore")
                 image, desc = queue.get(True, timeout=1)
         except Empty:
-            if done_event.is_set():
+            if finishing:
                 break
             continue
 
